@@ -24,7 +24,7 @@
 From Coq Require Import List Arith Bool NArith ZArith.
 From SNT Require Import Base.Outcome Surface.Bounds Surface.Shape Surface.ShapeProofs
   Render.CellLayout Render.Writer Render.WriterFrame View.ViewModel View.LayoutProofs View.RenderProofs
-  View.PaintProofs View.FitsProofs View.DisjointProofs.
+  View.PaintProofs View.FitsProofs View.DisjointProofs View.HitProofs.
 Import ListNotations.
 Local Open Scope N_scope.
 
@@ -113,6 +113,29 @@ Theorem C10_hit_order_free : forall (kids : list ltree) (i : nat) (k : ltree) (r
   ForallOrdPairs no_common_point kids -> nth_error kids i = Some k -> contains k r c ->
   find_child kids 0 r c = Some (i, k).
 Proof. exact disjoint_hit_unique. Qed.
+
+(* (6c) The last clause of the property: hit-testing any cell a leaf paints leads to that leaf's node.
+   paint_paths is `paints` with the chain of child indices of every leaf's layout node; for the tree layout
+   produced, every cell (i, j) of the window a leaf is handed is the cell (R, C) of the surface the root
+   node draws into (positions relative to the root node, as Layout::find_path takes them), and find_path
+   from (R, C) starts with exactly that chain (HitOk). *)
+Theorem C10_painted_cell_hits_leaf : forall (vc : vctx) (v : vtree) (c : ct) (t : ltree) (w : window),
+  layout vc v c = Ok t ->
+  map fst (paint_paths (has_glyphs (v_r vc)) v t w) = paints (has_glyphs (v_r vc)) v t w /\
+  Forall (HitOk t w) (paint_paths (has_glyphs (v_r vc)) v t w).
+Proof. exact layout_paint_hit. Qed.
+
+(* (1b) The model performs the plain `-` and `/` of the code as checked operations (usub / udiv: Panic on
+   underflow / zero divisor) at Align::align (container.rs:39-45), the spacing of Justify
+   (flex.rs:431-436), the scroll bar position (scrollbar.rs:141) and FindPath::next (layout.rs:245-246);
+   saturating_sub stays truncated subtraction.  C10_layout_total therefore says these never fire inside
+   layout; the two statements below say it for Align::align and find_path on their own, for all inputs. *)
+Theorem C10_align_checked : forall (a : align) (size space : N), align_chk a size space = Ok (align_pos a size space).
+Proof. exact align_chk_ok. Qed.
+
+Theorem C10_find_path_checked : forall (fuel : nat) (t : ltree) (r c : N),
+  find_path_chk fuel t r c = Ok (find_path fuel t r c).
+Proof. exact find_path_chk_ok. Qed.
 
 Check C10_layout_total : forall (vc : vctx) (v : vtree) (c : ct), Valid c -> exists t, layout vc v c = Ok t.
 Check C10_within : forall (vc : vctx) (v : vtree) (c : ct) (t : ltree),
@@ -207,4 +230,22 @@ Example C10_siblings_nonvacuous :
   | Ok t => find_path (depth t) t 1 4 = [1%nat] /\ find_path (depth t) t 1 2 = [0%nat] /\ find_path (depth t) t 1 7 = []
   | _ => False
   end.
+Proof. vm_compute. repeat split. Qed.
+
+(* the two probes of C10_siblings_nonvacuous: chains [0] and [1]; cell (1, 1) of the second probe's window
+   is cell (1, 4) of the root surface, where find_path yields [1] *)
+Example C10_painted_cell_hits_leaf_nonvacuous :
+  let v := VFlex Hor JStart [(VProbe 1 2 3, None, None, AStart); (VProbe 2 2 3, None, None, AStart)] in
+  match layout ex_vc v (mkCt 0 0 4 10) with
+  | Ok t => map snd (paint_paths true v t (win_root 4 10)) = [[0%nat]; [1%nat]] /\
+            map (fun e => win_coord (snd (fst e)) 1 1) (paint_paths true v t (win_root 4 10)) = [(1, 1); (1, 4)]%nat /\
+            find_path_chk (depth t) t 1 4 = Ok [1%nat]
+  | _ => False
+  end.
+Proof. vm_compute. repeat split. Qed.
+
+(* the checked operators do fire where the code would: Align::End with the size clamp removed *)
+Example C10_checked_nonvacuous :
+  usub 1005 3 5 = Panic 1005 /\ udiv 1008 7 0 = Panic 1008 /\ align_chk AEnd 5 3 = Ok 0 /\ align_chk ACenter 2 7 = Ok 2 /\
+  flex_spaces JBetween 6 3 = Ok (0, 3) /\ flex_spaces JBetween 6 1 = Ok (0, 6) /\ flex_spaces JAround 6 0 = Ok (3, 6).
 Proof. vm_compute. repeat split. Qed.
